@@ -441,6 +441,16 @@ bool TypeAuditor::ViGlobal(Cursor iter) {
     );
     return false;
   }
+  if (std::holds_alternative<LogicT>(*type) && !iter.IsRoot() &&
+      iter.Parent().id != TokenID::PUNC_DEFINE && iter.Parent().id != TokenID::NT_FUNC_DEFINITION) {
+    // Note: logic-typed identifier is valid only as a whole expression, not as an operand
+    OnError(
+      SemanticEID::invalidTypeOperation,
+      iter->pos.start,
+      ToString(*type)
+    );
+    return false;
+  }
   return SetCurrent(*type);
 }
 
